@@ -641,7 +641,10 @@ fn cli_prompt(rep: &Report, n: usize, seed: u64) {
             // end of input in the middle of a line
             stdin.extend_from_slice(&prompt_line(&mut rng));
         }
-        let out = run_cli(src.as_bytes(), &CliOpts { interpreted: interp, stdin: &stdin, env: vec![("VERIF_NOMEM", "1")], timeout_s: 40.0, cap: 16 << 20, ..Default::default() });
+        // every print command typed at a prompt may legitimately dump up to the whole memory (3.3 MB of text): the
+        // output budget grows with the number of such lines, a flood beyond it is a spin
+        let prints = stdin.split(|b| *b == b'\n').filter(|l| l.windows(5).any(|w| w.eq_ignore_ascii_case(b"print"))).count();
+        let out = run_cli(src.as_bytes(), &CliOpts { interpreted: interp, stdin: &stdin, env: vec![("VERIF_NOMEM", "1")], timeout_s: 60.0, cap: (16 << 20) + prints * 3_600_000, ..Default::default() });
         judge_cli(rep, &out, "prompt-input", "prompt", src.as_bytes(), &stdin, interp, if core { Some(format!("p{}", i)) } else { None });
     });
 }
